@@ -29,7 +29,7 @@ PROP = dict(
     rule="case = one API (requirement structure declared globally / per operation / overriding a global decoy, registrations, "
          "authorizer mode, authorizer registered before NewContext / after it / replacing a permissive one, always before the "
          "handler is built) built once; requests = outcome vector x evaluation order x variant (good, missing required query "
-         "parameter, unsupported Content-Type, unacceptable Accept). Exhaustive part: every script of the GenSecurity lattice "
+         "parameter, unsupported Content-Type, unacceptable Accept, form body with fields named like the query api keys, valid / invalid). Exhaustive part: every script of the GenSecurity lattice "
          "in every evaluation order; plus 5 hand-written corner structures x all outcome vectors, and seeded random "
          "structures (400 / 4000). Non-trivial: at least one authenticator was consulted in the case; distinct by hash of the case.",
     assumptions=COMMON_ASSUME + [
